@@ -321,7 +321,7 @@ def handle (j : Json) : Json :=
       Json.mkObj [("errs", strList []), ("output", outputToJson o), ("imports", pairsJ (Imports.importsList st)),
         ("scope", strList (Output.validateScopes o)), ("cyclic", Json.bool (Output.hasCycle o)),
         ("params", strList (Output.validateParamsExist o)), ("services", strList (Output.validateServicesExist o)),
-        ("onCycle", strList (g.nodes.filter (Graph.onCycle g))),
+        ("onCycle", strList ((g.nodes.filter (Graph.onCycle g)).map Output.Node.id)),
         ("reachOk", Json.bool (g.nodes.all fun n => (Graph.reach g n).isSome))]
   | "cyclecheck" =>
     let i := inputOfJson ((j.getObjVal? "input").toOption.getD Json.null)
@@ -330,7 +330,8 @@ def handle (j : Json) : Json :=
     | .ok (o, _) =>
       let g := Output.buildGraph o
       let cycles := (jarr j "cycles").toList.map fun c => (c.getArr?.toOption.getD #[]).toList.filterMap (·.getStr?.toOption)
-      Json.mkObj [("valid", Json.arr (cycles.map fun c => Json.bool (Graph.isCycle g c)).toArray)]
+      let idOf := fun (s : String) => (g.nodes.find? (·.id == s)).getD (.tag ("<unknown node " ++ s ++ ">"))
+      Json.mkObj [("valid", Json.arr (cycles.map fun c => Json.bool (Graph.isCycle g (c.map idOf))).toArray)]
   | "run" =>
     let fl := (j.getObjVal? "flags").toOption.getD Json.null
     let gb := fun (k : String) => (fl.getObjValAs? Bool k).toOption.getD false
